@@ -107,6 +107,7 @@ func checkC10(p *Program, r *Result) {
 	checkParserMinLength(p, r, "C10.d")
 	r.rule("C10.k", "a checked value plus a constant still fits: the guard leaves room for what is added", 1)
 	checkAdditiveBounds(p, r, "C10.k", sortedFuncs(scope), nil)
+	checkSumBounds(p, r, "C10.k", sortedFuncs(scope))
 	r.Extra["raw_fields"] = rawFieldList(ba)
 	checkNoAbort(p, r, "C10.e", sortedFuncs(scope))
 
